@@ -4,7 +4,7 @@ CONSTANTS
   T = 100
   STALL = {}
   LateResponseOK = TRUE
-  NoTimeout = FALSE
+  NoTimeout = TRUE
   MaxId = 4
   ACCEPT <- TraceNat
   DELAY <- TraceNat
